@@ -926,6 +926,7 @@ class Server:
             path_io_factory=self.path_io_factory,
             path_timeout=self.path_timeout,
             extra_workers=set(),
+            aborted_workers=set(),
             response=lambda *args: response_queue.put_nowait(args),
             acquired=False,
             restart_offset=0,
@@ -1592,11 +1593,18 @@ class Server:
     @ConnectionConditions(ConnectionConditions.login_required)
     async def abor(self, connection, rest):
         # finished worker can still be in set until dispatcher collects it
-        workers = [w for w in connection.extra_workers if not w.done()]
-        if workers:
-            for worker in workers:
+        workers = {w for w in connection.extra_workers if not w.done()}
+        # worker cancelled by previous ABOR can still be cleaning up: it
+        # answers for that ABOR only and must not be cancelled again
+        connection.aborted_workers.intersection_update(workers)
+        fresh = workers - connection.aborted_workers
+        if fresh:
+            for worker in fresh:
+                connection.aborted_workers.add(worker)
                 worker.cancel()
         else:
+            if connection.aborted_workers:
+                await asyncio.wait(connection.aborted_workers)
             connection.response("226", "nothing to abort")
         return True
 
